@@ -1,7 +1,597 @@
-//! Component-level monitors; filled in below.
+//! Component-level monitors over the `verif` wrappers: packed counters / sketch / TinyLFU (C14), the admission
+//! decision (C06) and the acknowledgement protocol (C12).
+use std::collections::{BTreeMap, BTreeSet, HashMap};
+use std::sync::atomic::{AtomicBool, AtomicU64, Ordering};
+use std::sync::{Arc, Mutex};
+use std::task::Poll;
+use std::thread;
+use std::time::{Duration, Instant};
+
+use tinylfu_cached::cache::command::{CommandStatus, RejectionReason};
+use tinylfu_cached::cache::verif::{Event, Site, VerifAck, VerifAdmissionPolicy, VerifFrequencyCounter, VerifRow, VerifTinyLFU};
+
 use crate::props::Shard;
+use crate::rt::{self, recorder, sched, CountingWaker};
+use crate::seq::Finding;
+use crate::sut::status_name;
+use crate::util::{fnv_step, Counts, Rng, J};
 use crate::Args;
 
-pub fn run(args: &Args) -> Shard {
-    Shard::new("comp", &args.str("focus", "C14"))
+fn fail(shard: &mut Shard, props: &[&'static str], signature: String, detail: String, witness: J) {
+    shard.add_finding(Finding { props: props.to_vec(), signature, detail, witness, inconclusive: false });
 }
+
+// ------------------------------------------------------------------------------------------------ C14
+
+/// Exhaustive over all 256 byte values x 2 nibble positions (+ neighbours in longer rows).
+fn c14_bytes(shard: &mut Shard) {
+    for byte in 0..=255u8 {
+        for position in 0..2u64 {
+            let (low, high) = (byte & 0x0f, byte >> 4);
+            // get_at reads the right nibble
+            let row = VerifRow::from_bytes(vec![byte]);
+            let expect_get = if position == 0 { low } else { high };
+            if row.get_at(position) != expect_get {
+                fail(shard, &["C14"], "C14/get-at-reads-wrong-nibble".into(), format!("byte {:#04x} position {}: got {} expected {}", byte, position, row.get_at(position), expect_get), J::Null);
+            }
+            // increment changes only its own nibble and saturates at 15
+            let mut row = VerifRow::from_bytes(vec![0xA5, byte, 0x5A]);
+            row.increment_at(2 + position);
+            let (mut new_low, mut new_high) = (low, high);
+            if position == 0 { if low < 15 { new_low += 1; } } else if high < 15 { new_high += 1; }
+            let expected = new_high << 4 | new_low;
+            if row.bytes() != [0xA5, expected, 0x5A] {
+                let kind = if (position == 0 && low == 15) || (position == 1 && high == 15) { "saturated-counter-changed" } else { "increment-disturbs-or-miscounts" };
+                fail(shard, &["C14"], format!("C14/{}", kind), format!("byte {:#04x} increment at nibble {}: row became {:02x?}, expected middle byte {:#04x} and neighbours untouched", byte, position, row.bytes(), expected), J::Null);
+            }
+            // halving: floor(n / 2) per nibble
+            let mut row = VerifRow::from_bytes(vec![byte, byte]);
+            row.half_counters();
+            let halved = (high / 2) << 4 | (low / 2);
+            if row.bytes() != [halved, halved] {
+                fail(shard, &["C14"], "C14/halving-wrong".into(), format!("byte {:#04x} halved to {:02x?}, expected {:#04x}", byte, row.bytes(), halved), J::Null);
+            }
+            let mut row = VerifRow::from_bytes(vec![byte]);
+            row.clear();
+            if row.bytes() != [0] { fail(shard, &["C14"], "C14/clear-wrong".into(), format!("byte {:#04x} cleared to {:02x?}", byte, row.bytes()), J::Null); }
+            shard.case(fnv_step(0x14B, (byte as u64) << 1 | position), true);
+            shard.counts.inc("byte_cases");
+        }
+    }
+    shard.sample(J::obj().with("part", J::s("all 256 byte values x 2 nibble positions: get_at, increment_at (own nibble only, saturating), half_counters, clear")));
+}
+
+struct RefSketch { rows: Vec<Vec<u8>>, seeds: [u64; 4], total: u64 }
+
+impl RefSketch {
+    fn new(seeds: [u64; 4], total: u64) -> Self { RefSketch { rows: vec![vec![0; total as usize]; 4], seeds, total } }
+    fn increment(&mut self, hash: u64) { for r in 0..4 { let i = ((hash ^ self.seeds[r]) % self.total) as usize; if self.rows[r][i] < 15 { self.rows[r][i] += 1; } } }
+    fn estimate(&self, hash: u64) -> u8 { (0..4).map(|r| self.rows[r][((hash ^ self.seeds[r]) % self.total) as usize]).min().unwrap() }
+    fn halve(&mut self) { for row in self.rows.iter_mut() { for c in row.iter_mut() { *c /= 2; } } }
+}
+
+fn hash_alphabet(rng: &mut Rng, n: usize) -> Vec<u64> {
+    (0..n).map(|i| match i % 4 { 0 => rng.next(), 1 => i as u64, 2 => u64::MAX - i as u64, _ => rng.next() & 0xff }).collect()
+}
+
+/// FrequencyCounter against an unpacked reference fed the same seeds and stream, for one counter count.
+fn c14_sketch(shard: &mut Shard, counters: u64, seed: u64) {
+    let mut rng = Rng::new(seed ^ counters);
+    let mut real = VerifFrequencyCounter::new(counters);
+    let total = real.total_counters();
+    let witness = J::obj().with("counters", J::Int(counters as i128)).with("total_counters", J::Int(total as i128));
+    if total < counters || !total.is_power_of_two() {
+        fail(shard, &["C14"], "C14/total-counters-not-a-power-of-two-at-least-counters".into(), format!("counters {} gave {} slots per row", counters, total), witness.clone());
+        return;
+    }
+    let matrix = real.matrix();
+    if matrix.len() != 4 || matrix.iter().any(|row| (row.len() as u64) < total) {
+        fail(shard, &["C14", "C17"], "C14/row-shorter-than-total-counters".into(), format!("counters {}: rows of {} nibbles for {} slots", counters, matrix.get(0).map(|r| r.len()).unwrap_or(0), total), witness.clone());
+        return;
+    }
+    let mut reference = RefSketch::new(real.seeds(), total);
+    let hashes = hash_alphabet(&mut rng, 12);
+    let mut saturations = 0u64;
+    for step in 0..400 {
+        let hash = if rng.chance(2, 3) { hashes[rng.below(3) as usize] } else { *rng.pick(&hashes) };
+        real.increment(hash);
+        reference.increment(hash);
+        if reference.estimate(hash) == 15 { saturations += 1; }
+        if step % 37 == 36 { real.reset(); reference.halve(); shard.counts.inc("sketch_resets"); }
+        if step % 16 == 0 {
+            for h in &hashes {
+                if real.estimate(*h) != reference.estimate(*h) {
+                    fail(shard, &["C14"], "C14/estimate-differs-from-reference-sketch".into(),
+                         format!("counters {}: estimate({:#x}) = {} but the reference minimum is {} after {} increments", counters, h, real.estimate(*h), reference.estimate(*h), step + 1), witness.clone());
+                    return;
+                }
+            }
+        }
+    }
+    let got = real.matrix();
+    for r in 0..4 {
+        if got[r][..total as usize] != reference.rows[r][..] {
+            fail(shard, &["C14"], "C14/matrix-differs-from-reference-sketch".into(), format!("counters {}: row {} differs from the reference after the stream", counters, r), witness.clone());
+            return;
+        }
+    }
+    real.clear();
+    if real.matrix().iter().any(|row| row.iter().any(|c| *c != 0)) { fail(shard, &["C14"], "C14/clear-leaves-counters".into(), format!("counters {}", counters), witness.clone()); }
+    shard.counts.add("saturated_estimates_seen", saturations);
+    shard.counts.inc("counter_counts_covered");
+    shard.case(fnv_step(0x145, counters), true);
+}
+
+/// TinyLFU: lower bound and cap within a window; reset at exactly `counters` recorded accesses, halving every
+/// counter and clearing the first-access filter.
+fn c14_tinylfu(shard: &mut Shard, counters: u64, seed: u64) {
+    let mut rng = Rng::new(seed ^ counters.rotate_left(9));
+    let mut lfu = VerifTinyLFU::new(counters);
+    let witness = J::obj().with("counters", J::Int(counters as i128));
+    let hashes = hash_alphabet(&mut rng, 6);
+    let mut window: HashMap<u64, u64> = HashMap::new();
+    let mut in_window = 0u64;
+    let mut seen_in_window: BTreeSet<u64> = BTreeSet::new();
+    let total_accesses = (counters * 3 + 7).min(600);
+    let mut n = 0;
+    while n < total_accesses {
+        // single accesses and small batches, so that batches cross the reset boundary too
+        let batch: Vec<u64> = if rng.chance(1, 4) { (0..rng.range(2, 5)).map(|_| *rng.pick(&hashes)).collect() } else { vec![if rng.chance(1, 2) { hashes[0] } else { *rng.pick(&hashes) }] };
+        let before = lfu.matrix();
+        let seeds = lfu.seeds();
+        let total = before[0].len() as u64;
+        let mut expected = RefSketch { rows: before.clone(), seeds, total };
+        let mut expected_increments = in_window;
+        let mut expected_window = window.clone();
+        let mut door: BTreeSet<u64> = seen_in_window.clone();
+        let mut resets = 0;
+        let mut filter_false_positive = false;
+        for h in &batch {
+            // the real filter may report a false positive; follow what it says for the first hash of the batch only when it is a single access
+            let had = if door.contains(h) { true } else if batch.len() == 1 { let fp = lfu.door_keeper_has(h); filter_false_positive |= fp; fp } else { false };
+            if had { expected.increment(*h); }
+            door.insert(*h);
+            *expected_window.entry(*h).or_insert(0) += 1;
+            expected_increments += 1;
+            if expected_increments >= counters {
+                expected.halve();
+                expected_increments = 0;
+                expected_window.clear();
+                door.clear();
+                resets += 1;
+            }
+        }
+        lfu.increment_access(batch.clone());
+        n += batch.len() as u64;
+        if lfu.total_increments() != expected_increments {
+            fail(shard, &["C14"], "C14/reset-not-at-exactly-the-configured-number-of-accesses".into(),
+                 format!("counters {}: after {} accesses in the window (+{}), total_increments is {} but {} was expected", counters, in_window, batch.len(), lfu.total_increments(), expected_increments), witness.clone());
+            return;
+        }
+        if resets > 0 { shard.counts.add("tinylfu_resets", resets); }
+        if resets > 0 && door.is_empty() {
+            // the ageing step was the last thing that happened: the first-access filter must be empty now
+            shard.counts.inc("filter_checked_right_after_ageing");
+            for h in &hashes {
+                if lfu.door_keeper_has(h) {
+                    fail(shard, &["C14"], "C14/first-access-filter-not-cleared-at-reset".into(), format!("counters {}: hash {:#x} is still in the first-access filter right after ageing", counters, h), witness.clone());
+                    return;
+                }
+            }
+        }
+        // exact matrix comparison is possible whenever the bloom filter gave no false positive inside a multi-access batch
+        if batch.len() == 1 || !filter_false_positive {
+            let got = lfu.matrix();
+            let same = (0..4).all(|r| got[r] == expected.rows[r]);
+            if !same && batch.len() == 1 {
+                let kind = if resets > 0 { "ageing-does-not-halve-every-counter" } else { "sketch-differs-after-access" };
+                fail(shard, &["C14"], format!("C14/{}", kind), format!("counters {}: sketch after the access of {:#x} differs from the reference (resets in this step: {})", counters, batch[0], resets), witness.clone());
+                return;
+            }
+        }
+        in_window = expected_increments;
+        window = expected_window;
+        seen_in_window = door;
+        for h in &hashes {
+            let recorded = window.get(h).copied().unwrap_or(0);
+            let estimate = lfu.estimate(*h);
+            if (estimate as u64) < recorded.min(15) {
+                fail(shard, &["C14"], "C14/estimate-under-counts".into(), format!("counters {}: hash {:#x} was recorded {} times in this window but its estimate is {}", counters, h, recorded, estimate), witness.clone());
+                return;
+            }
+            if estimate > 16 {
+                fail(shard, &["C14"], "C14/estimate-above-cap".into(), format!("counters {}: estimate {} for hash {:#x}", counters, estimate, h), witness.clone());
+                return;
+            }
+            if estimate >= 15 { shard.counts.inc("saturated_estimates_seen"); }
+        }
+    }
+    lfu.clear();
+    if lfu.total_increments() != 0 || lfu.matrix().iter().any(|row| row.iter().any(|c| *c != 0)) {
+        fail(shard, &["C14"], "C14/clear-leaves-state".into(), format!("counters {}", counters), witness.clone());
+    }
+    shard.counts.inc("tinylfu_streams");
+    shard.case(fnv_step(0x147, counters ^ seed << 20), true);
+}
+
+fn run_c14(args: &Args, shard: &mut Shard) {
+    let seed = args.u64("seed", 1);
+    let from = args.u64("from", 0);
+    let stride = args.u64("stride", 1);
+    let count = args.u64("count", 10);
+    if from == 0 { c14_bytes(shard); }
+    // every counter count 1..=130 is covered across the shards, plus random larger ones (non-powers of two included)
+    let mut c = 1 + from;
+    while c <= 130 { c14_sketch(shard, c, seed); c14_tinylfu(shard, c, seed); c += stride; }
+    let mut rng = rt::rng_for(seed, from, 0x14);
+    for _ in 0..count {
+        let big = match rng.below(4) { 0 => rng.range(131, 5000), 1 => (1u64 << rng.range(8, 16)) + rng.range(0, 2) - 1, 2 => rng.range(5000, 70_000), _ => rng.range(131, 1000) };
+        c14_sketch(shard, big, rng.next());
+        if big <= 3000 { c14_tinylfu(shard, big, rng.next()); }
+    }
+    shard.sample(J::obj().with("part", J::s("FrequencyCounter / TinyLFU against an unpacked reference sketch fed the same row seeds and access stream")).with("counter_counts", J::s("1..=130 and random larger")));
+}
+
+// ------------------------------------------------------------------------------------------------ C06
+
+fn drain_accesses(policy: &VerifAdmissionPolicy, applied_base: u64) -> bool {
+    let started = Instant::now();
+    loop {
+        let added = policy.access_added();
+        let applied = recorder().applied.load(Ordering::SeqCst) - applied_base;
+        if policy.access_queue_len() == 0 && applied >= added { return true; }
+        if started.elapsed() > Duration::from_secs(20) { return false; }
+        thread::yield_now();
+    }
+}
+
+fn c06_case(shard: &mut Shard, seed: u64, index: u64) {
+    let mut rng = rt::rng_for(seed, index, 0xC06);
+    let r = recorder();
+    r.keep.store(true, Ordering::SeqCst);
+    let _ = r.take_events();
+    let _ = r.take_weight_violations();
+    sched().quiet();
+    let max_weight = *rng.pick(&[10i64, 50, 100, 100, 1000]);
+    let counters = *rng.pick(&[16u64, 64, 1024]);
+    let applied_base = r.applied.load(Ordering::SeqCst);
+    let policy = VerifAdmissionPolicy::new(counters, 16, 2, max_weight);
+    let n_existing = rng.range(0, 9);
+    let constant_hash = rng.chance(1, 6);
+    let hash_of = |key: u64| if constant_hash { 42 } else { key.wrapping_mul(0x9E37_79B9_7F4A_7C15) ^ seed };
+    let mut next_id = 1u64;
+    let mut setup = J::arr();
+    // existing keys: fill without pressure
+    for key in 1..=n_existing {
+        let weight = match rng.below(4) { 0 => 1, 1 => (max_weight / 4).max(1), _ => rng.range(1, (max_weight as u64 / 3).max(1)) as i64 };
+        if policy.weight_used() + weight > max_weight { break; }
+        let status = policy.maybe_add(key, next_id, hash_of(key), weight, &|_k| {});
+        if status != CommandStatus::Accepted {
+            fail(shard, &["C06"], "C06/rejected-although-it-fits".into(), format!("setup put of weight {} with {} of {} used was answered {}", weight, policy.weight_used(), max_weight, status_name(&status)), J::Null);
+        }
+        next_id += 1;
+        // frequency profile set directly: 0..20 accesses (saturation at 15/16), ties on purpose
+        let accesses = *rng.pick(&[0u64, 0, 1, 1, 2, 3, 3, 5, 15, 16, 20]);
+        if accesses > 0 { for _ in 0..accesses { policy.accept(vec![hash_of(key)]); if !drain_accesses(&policy, applied_base) { break; } } }
+        setup.push(J::obj().with("key", J::Int(key as i128)).with("weight", J::Int(weight as i128)).with("accesses", J::Int(accesses as i128)));
+    }
+    let incoming_key = 100;
+    let incoming_accesses = *rng.pick(&[0u64, 0, 1, 2, 3, 5, 15, 20]);
+    for _ in 0..incoming_accesses { policy.accept(vec![hash_of(incoming_key)]); if !drain_accesses(&policy, applied_base) { break; } }
+    if !drain_accesses(&policy, applied_base) {
+        shard.add_finding(Finding { props: vec!["C06"], signature: "inconclusive/c06-drain".into(), detail: "access queue did not drain".into(), witness: J::Null, inconclusive: true });
+        policy.shutdown();
+        return;
+    }
+    let _ = r.take_events();
+    let free = max_weight - policy.weight_used();
+    let weight = match rng.below(8) { 0 => free.max(1), 1 => free + 1, 2 => (free - 1).max(1), 3 => max_weight, 4 => max_weight + 1, 5 => 1, 6 => i64::MAX / 2, _ => rng.range(1, max_weight as u64) as i64 };
+    // independent observation before the decision: charged keys, their estimates, the total
+    let charged_before = policy.charged();
+    let used_before = policy.weight_used();
+    let estimate_of: HashMap<u64, u8> = charged_before.iter().map(|(id, _, hash, _)| (*id, policy.estimate(*hash))).collect();
+    let weight_of: HashMap<u64, i64> = charged_before.iter().map(|(id, _, _, w)| (*id, *w)).collect();
+    let key_of: HashMap<u64, u64> = charged_before.iter().map(|(id, k, _, _)| (*id, *k)).collect();
+    let incoming_estimate = policy.estimate(hash_of(incoming_key));
+    let victims_hooked: Arc<Mutex<Vec<u64>>> = Arc::new(Mutex::new(Vec::new()));
+    let hook_log = victims_hooked.clone();
+    let incoming_id = next_id;
+    let status = policy.maybe_add(incoming_key, incoming_id, hash_of(incoming_key), weight, &move |key| hook_log.lock().unwrap().push(key));
+    let events = r.take_events();
+    let witness = J::obj().with("engine", J::s("comp")).with("scenario", J::s("c06")).with("seed", J::Int(seed as i128)).with("index", J::Int(index as i128))
+        .with("max_weight", J::Int(max_weight as i128)).with("existing", setup).with("incoming", J::obj().with("weight", J::Int(weight as i128)).with("accesses", J::Int(incoming_accesses as i128)).with("estimate", J::Int(incoming_estimate as i128)))
+        .with("used_before", J::Int(used_before as i128)).with("status", J::s(status_name(&status)))
+        .with("estimates", J::Arr(charged_before.iter().map(|(id, k, _, w)| J::obj().with("id", J::Int(*id as i128)).with("key", J::Int(*k as i128)).with("weight", J::Int(*w as i128)).with("estimate", J::Int(estimate_of[id] as i128))).collect()));
+    let hooked = victims_hooked.lock().unwrap().clone();
+    let charged_after: BTreeMap<u64, i64> = policy.charged().iter().map(|(id, _, _, w)| (*id, *w)).collect();
+    let used_after = policy.weight_used();
+    let mut class = "";
+    let mut bad = |shard: &mut Shard, signature: &str, detail: String| fail(shard, &["C06"], format!("C06/{}", signature), detail, witness.clone());
+    if weight > max_weight {
+        class = "over-weight";
+        if status != CommandStatus::Rejected(RejectionReason::KeyWeightIsGreaterThanCacheWeight) { bad(shard, "overweight-key-not-rejected-as-overweight", format!("weight {} > cache weight {} was answered {}", weight, max_weight, status_name(&status))); }
+        if !hooked.is_empty() || used_after != used_before || charged_after.len() != charged_before.len() { bad(shard, "overweight-put-changed-the-cache", format!("an over-weight put evicted {:?} / changed the total from {} to {}", hooked, used_before, used_after)); }
+    } else if free >= weight {
+        class = "fits";
+        if status != CommandStatus::Accepted { bad(shard, "rejected-although-it-fits", format!("weight {} fits in the free space {} but the put was answered {}", weight, free, status_name(&status))); }
+        if !hooked.is_empty() { bad(shard, "evicted-although-it-fits", format!("weight {} fits in the free space {} but {:?} were evicted", weight, free, hooked)); }
+        if status == CommandStatus::Accepted && used_after != used_before + weight { bad(shard, "total-wrong-after-fitting-put", format!("total went from {} to {} for weight {}", used_before, used_after, weight)); }
+    } else {
+        // eviction path: replay the decision from the recorded samples with our own estimates
+        let mut space = free;
+        let mut evicted: Vec<u64> = Vec::new();
+        let mut gone: BTreeSet<u64> = BTreeSet::new();
+        let mut decided_reject = false;
+        let steps: Vec<&Event> = events.iter().map(|e| &e.event).filter(|e| matches!(e, Event::AdmissionStep { .. })).collect();
+        if steps.is_empty() { bad(shard, "no-admission-step-recorded", "the eviction path left no step event".into()); }
+        for (n, step) in steps.iter().enumerate() {
+            if let Event::AdmissionStep { sample, victim, evicted: did_evict, .. } = step {
+                if space >= weight { bad(shard, "eviction-continued-although-space-suffices", format!("step {}: free space {} already covers weight {}", n, space, weight)); break; }
+                let alive = charged_before.len() - gone.len();
+                let ids: BTreeSet<u64> = sample.iter().map(|s| s.0).collect();
+                if ids.len() != sample.len() { bad(shard, "duplicate-in-sample", format!("step {}: sample {:?} contains a key twice", n, sample)); }
+                if sample.len() != alive.min(5) { bad(shard, "sample-size-wrong", format!("step {}: sample of {} keys with {} charged keys (expected min(5, keys))", n, sample.len(), alive)); }
+                for s in sample.iter() {
+                    if gone.contains(&s.0) || !estimate_of.contains_key(&s.0) { bad(shard, "sample-contains-a-key-that-is-not-charged", format!("step {}: id {} is not a charged key", n, s.0)); }
+                    else if estimate_of[&s.0] != s.2 || weight_of[&s.0] != s.1 { bad(shard, "sample-carries-wrong-estimate-or-weight", format!("step {}: id {} sampled as (weight {}, estimate {}) but it is (weight {}, estimate {})", n, s.0, s.1, s.2, weight_of[&s.0], estimate_of[&s.0])); }
+                }
+                match victim {
+                    None => {
+                        if !sample.is_empty() { bad(shard, "no-victim-from-a-non-empty-sample", format!("step {}: sample {:?} but no victim was taken", n, sample)); }
+                        break;
+                    }
+                    Some((victim_id, _, _)) => {
+                        let min_estimate = sample.iter().filter_map(|s| estimate_of.get(&s.0)).min().copied().unwrap_or(0);
+                        let victim_estimate = estimate_of.get(victim_id).copied().unwrap_or(255);
+                        if !ids.contains(victim_id) { bad(shard, "victim-not-from-the-sample", format!("step {}: victim id {} is not in the sample {:?}", n, victim_id, sample)); }
+                        if victim_estimate != min_estimate { bad(shard, "victim-is-not-the-coldest-of-the-sample", format!("step {}: victim id {} has estimate {} but the sample minimum is {} (sample {:?})", n, victim_id, victim_estimate, min_estimate, sample)); }
+                        let ties = sample.iter().filter(|s| estimate_of.get(&s.0) == Some(&min_estimate)).count();
+                        if ties > 1 { shard.counts.inc("decisions_with_a_tie_for_the_coldest_key"); }
+                        let should_evict = victim_estimate <= incoming_estimate;
+                        if *did_evict != should_evict {
+                            let kind = if *did_evict { "hotter-key-evicted-by-a-colder-one" } else { "victim-spared-although-not-hotter-than-the-incoming-key" };
+                            bad(shard, kind, format!("step {}: victim estimate {} vs incoming estimate {}: evicted = {}", n, victim_estimate, incoming_estimate, did_evict));
+                        }
+                        if *did_evict { space += weight_of.get(victim_id).copied().unwrap_or(0); evicted.push(*victim_id); gone.insert(*victim_id); } else { decided_reject = true; break; }
+                    }
+                }
+            }
+        }
+        let expected_keys: Vec<u64> = evicted.iter().filter_map(|id| key_of.get(id).copied()).collect();
+        if hooked != expected_keys { bad(shard, "delete-hook-calls-differ-from-victims", format!("victims (by key) {:?} but the delete hook was called for {:?}", expected_keys, hooked)); }
+        let expect_accept = !decided_reject && space >= weight;
+        if expect_accept != (status == CommandStatus::Accepted) {
+            bad(shard, "outcome-differs-from-resulting-space", format!("after evicting {:?} the free space is {} for weight {}, yet the put was answered {}", evicted, space, weight, status_name(&status)));
+        }
+        if status != CommandStatus::Accepted && status != CommandStatus::Rejected(RejectionReason::EnoughSpaceIsNotAvailableAndKeyFailedToEvictOthers) {
+            bad(shard, "wrong-rejection-reason", format!("answered {}", status_name(&status)));
+        }
+        let expected_used = max_weight - space + if status == CommandStatus::Accepted { weight } else { 0 };
+        if used_after != expected_used { bad(shard, "total-wrong-after-eviction", format!("total is {} but {} was expected (evicted {:?}, status {})", used_after, expected_used, evicted, status_name(&status))); }
+        for id in &evicted { if charged_after.contains_key(id) { bad(shard, "victim-still-charged", format!("victim id {} is still charged", id)); } }
+        class = match (evicted.len(), status == CommandStatus::Accepted) { (0, false) => "immediate-reject", (0, true) => "accept-without-victim", (1, true) => "evict-one-accept", (_, true) => "multi-victim-accept", (_, false) => "partial-evict-reject" };
+        shard.counts.inc(format!("sample_size:{}", steps.first().map(|s| if let Event::AdmissionStep { sample, .. } = s { sample.len() } else { 0 }).unwrap_or(0)));
+    }
+    if status == CommandStatus::Accepted && !charged_after.contains_key(&incoming_id) { bad(shard, "accepted-key-not-charged", "the accepted key is not charged".into()); }
+    if status != CommandStatus::Accepted && charged_after.contains_key(&incoming_id) { bad(shard, "rejected-key-charged", "the rejected key is charged".into()); }
+    if used_after < 0 || used_after > max_weight { fail(shard, &["C01", "C06"], "C01/total-outside-bounds/admission".into(), format!("total {} with limit {}", used_after, max_weight), witness.clone()); }
+    for (site, id, total, max) in r.take_weight_violations() { fail(shard, &["C01"], format!("C01/total-outside-bounds/site={}/admission", site), format!("total {} (limit {}) at key id {}", total, max, id), witness.clone()); }
+    shard.counts.inc(format!("decisions:{}", class));
+    let signature = fnv_step(fnv_step(fnv_step(0xC06, crate::util::fnv(class.as_bytes())), n_existing << 8 | incoming_estimate as u64), hooked.len() as u64);
+    shard.case(signature, class != "fits" || n_existing > 0);
+    if class != "fits" { shard.sample(witness.clone()); }
+    policy.shutdown();
+}
+
+// ------------------------------------------------------------------------------------------------ C12
+
+const STATUSES: [CommandStatus; 3] = [CommandStatus::Accepted, CommandStatus::Rejected(RejectionReason::KeyDoesNotExist), CommandStatus::ShuttingDown];
+
+struct PollObs { gap: usize, waker: usize, result: Poll<CommandStatus> }
+
+/// One placement of 1-3 sequential polls into the gaps of done(): 0 = before, 1 = between the two stores,
+/// 2 = before the wake, 3 = after done() returned. `fresh` bit i: poll i uses a new waker.
+fn c12_directed_case(shard: &mut Shard, status: CommandStatus, gaps: &[usize], fresh: u32) {
+    sched().quiet();
+    sched().release_all();
+    let ack = Arc::new(VerifAck::new());
+    let mut wakers: Vec<Arc<CountingWaker>> = vec![CountingWaker::new()];
+    let mut observations: Vec<PollObs> = Vec::new();
+    let mut poll_in_gap = |gap: usize, observations: &mut Vec<PollObs>, wakers: &mut Vec<Arc<CountingWaker>>| {
+        for (i, g) in gaps.iter().enumerate() {
+            if *g != gap { continue; }
+            if i > 0 && fresh & (1 << i) != 0 { wakers.push(CountingWaker::new()); }
+            let waker_index = wakers.len() - 1;
+            let result = rt::poll_once(ack.handle(), &wakers[waker_index]);
+            observations.push(PollObs { gap, waker: waker_index, result });
+        }
+    };
+    poll_in_gap(0, &mut observations, &mut wakers);
+    sched().arm(Site::AckDoneBetweenStores, rt::tid());
+    let completer_ack = ack.clone();
+    let completer = thread::spawn(move || completer_ack.done(status));
+    let mut entered = [true, false, false, true];
+    if sched().wait_holding(Site::AckDoneBetweenStores, Duration::from_secs(5)) {
+        entered[1] = true;
+        poll_in_gap(1, &mut observations, &mut wakers);
+        sched().arm(Site::AckDoneBeforeWake, rt::tid());
+        sched().release(Site::AckDoneBetweenStores);
+        if sched().wait_holding(Site::AckDoneBeforeWake, Duration::from_secs(5)) {
+            entered[2] = true;
+            poll_in_gap(2, &mut observations, &mut wakers);
+        }
+        sched().release(Site::AckDoneBeforeWake);
+    }
+    sched().release_all();
+    let _ = completer.join();
+    poll_in_gap(3, &mut observations, &mut wakers);
+    // a final poll after completion, like an executor would do after the wake
+    let final_result = rt::poll_once(ack.handle(), wakers.last().unwrap());
+    let witness = J::obj().with("engine", J::s("comp")).with("scenario", J::s("c12-directed")).with("status", J::s(status_name(&status)))
+        .with("polls_in_gaps", J::Arr(gaps.iter().map(|g| J::Int(*g as i128)).collect())).with("fresh_waker_mask", J::Int(fresh as i128))
+        .with("observed", J::Arr(observations.iter().map(|o| J::s(format!("gap{} waker{} -> {:?}", o.gap, o.waker, o.result))).collect()));
+    let mut ready_seen: Option<CommandStatus> = None;
+    let mut last_pending_waker: Option<usize> = None;
+    for o in observations.iter() {
+        shard.counts.inc(format!("polls_inside_gap_{}", o.gap));
+        match o.result {
+            Poll::Ready(CommandStatus::Pending) => fail(shard, &["C12"], format!("C12/ready-pending/gap={}", o.gap), format!("a poll placed in gap {} of done() returned Ready(Pending)", o.gap), witness.clone()),
+            Poll::Ready(s) => {
+                if s != status { fail(shard, &["C12"], "C12/ready-with-a-different-status".into(), format!("poll returned {} but done() was given {}", status_name(&s), status_name(&status)), witness.clone()); }
+                if let Some(previous) = ready_seen { if previous != s { fail(shard, &["C12"], "C12/status-changed-between-polls".into(), format!("{} then {}", status_name(&previous), status_name(&s)), witness.clone()); } }
+                ready_seen = Some(s);
+            }
+            Poll::Pending => {
+                if ready_seen.is_some() { fail(shard, &["C12"], "C12/pending-after-ready".into(), "a poll returned Pending after an earlier poll had returned Ready".into(), witness.clone()); }
+                if o.gap == 3 { fail(shard, &["C12"], "C12/pending-after-done-returned".into(), "a poll made after done() returned is still Pending".into(), witness.clone()); }
+                last_pending_waker = Some(o.waker);
+            }
+        }
+    }
+    match final_result {
+        Poll::Ready(s) if s == status => {}
+        other => fail(shard, &["C12"], "C12/final-poll-not-ready-with-the-real-status".into(), format!("after done({}) returned a poll gave {:?}", status_name(&status), other), witness.clone()),
+    }
+    let last_was_pending = matches!(observations.last().map(|o| &o.result), Some(Poll::Pending));
+    if let (Some(index), true) = (last_pending_waker, last_was_pending) {
+        shard.counts.inc("wake_obligations_checked");
+        if wakers[index].count() == 0 {
+            fail(shard, &["C12"], "C12/last-pending-poller-never-woken".into(), format!("the waker registered by the last Pending poll (waker {}) was never woken although done() returned", index), witness.clone());
+        }
+    }
+    if !entered[1] || !entered[2] { shard.counts.inc("directed_windows_not_entered"); }
+    let mut signature = fnv_step(0xC12, fresh as u64);
+    for g in gaps { signature = fnv_step(signature, *g as u64); }
+    signature = fnv_step(signature, crate::util::fnv(status_name(&status).as_bytes()));
+    shard.case(signature, true);
+    if gaps.len() == 3 && fresh == 2 { shard.sample(witness); }
+}
+
+fn c12_directed(shard: &mut Shard) {
+    let mut placements: Vec<Vec<usize>> = Vec::new();
+    for a in 0..4 { placements.push(vec![a]); for b in a..4 { placements.push(vec![a, b]); for c in b..4 { placements.push(vec![a, b, c]); } } }
+    for status in STATUSES {
+        for gaps in &placements {
+            for fresh in 0..(1u32 << (gaps.len() - 1)) { c12_directed_case(shard, status, gaps, fresh << 1); }
+        }
+    }
+    shard.counts.add("placements_enumerated", (placements.len() * 3) as u64);
+}
+
+/// Free-running: a poller spins (changing its waker now and then) while a completer calls done() with random
+/// delays at the sites between done()'s steps and inside poll().
+fn c12_stress(shard: &mut Shard, seed: u64, index: u64, rounds: u64) {
+    let mut rng = rt::rng_for(seed, index, 0xC12);
+    sched().release_all();
+    sched().set_random(rng.next(), 150, 150, 30);
+    sched().quiet_mask.store(0, Ordering::SeqCst);
+    for round in 0..rounds {
+        let status = STATUSES[(round % 3) as usize];
+        let ack = Arc::new(VerifAck::new());
+        let pollers = 1 + (round % 2) as usize; // a second task polling the same handle steals the waker slot: only the last poller must be woken
+        let stop = Arc::new(AtomicBool::new(false));
+        let completed = Arc::new(AtomicU64::new(0));
+        let mut handles = Vec::new();
+        for p in 0..pollers {
+            let (ack, stop, completed) = (ack.clone(), stop.clone(), completed.clone());
+            let pollers_total = pollers;
+            let mut rng = rt::rng_for(seed, index * 1000 + round, p as u64);
+            handles.push(thread::spawn(move || {
+                // behaves like an executor task: poll; on Pending wait for *this* waker to fire (sometimes re-poll
+                // spuriously, sometimes with a new waker); a wake that never comes although done() returned is a lost wake-up
+                let mut waker = CountingWaker::new();
+                let mut ready: Option<CommandStatus> = None;
+                let mut problems: Vec<String> = Vec::new();
+                let mut polls = 0u64;
+                let mut waits = 0u64;
+                loop {
+                    if rng.chance(1, 5) { waker = CountingWaker::new(); }
+                    let done_before_poll = completed.load(Ordering::SeqCst) == 1;
+                    let seen = waker.count();
+                    let result = rt::poll_once(ack.handle(), &waker);
+                    polls += 1;
+                    match result {
+                        Poll::Ready(CommandStatus::Pending) => { problems.push("ready-pending".into()); break; }
+                        Poll::Ready(s) => {
+                            if let Some(prev) = ready { if prev != s { problems.push("status-changed-between-polls".into()); } }
+                            ready = Some(s);
+                            if polls > 3 && stop.load(Ordering::Relaxed) { break; }
+                            if rng.chance(1, 2) { break; }
+                        }
+                        Poll::Pending => {
+                            if ready.is_some() { problems.push("pending-after-ready".into()); break; }
+                            if done_before_poll { problems.push("pending-after-done-returned".into()); break; }
+                            if rng.chance(1, 3) { continue; } // spurious re-poll
+                            waits += 1;
+                            let mut lost = false;
+                            while waker.count() == seen {
+                                if completed.load(Ordering::SeqCst) == 1 {
+                                    // done() has returned; wake_by_ref happens inside done(): the wake must be visible now
+                                    if waker.count() == seen { lost = true; }
+                                    break;
+                                }
+                                std::hint::spin_loop();
+                            }
+                            if lost && pollers_total == 1 { problems.push("last-pending-poller-never-woken".into()); break; }
+                            if lost { break; } // with two tasks sharing the handle only the most recent poller is owed a wake
+                        }
+                    }
+                    if polls > 200_000 { break; }
+                }
+                (ready, problems, polls, waits)
+            }));
+        }
+        thread::sleep(Duration::from_micros(rng.range(0, 300)));
+        ack.done(status);
+        completed.store(1, Ordering::SeqCst);
+        thread::sleep(Duration::from_micros(50));
+        stop.store(true, Ordering::SeqCst);
+        let witness = J::obj().with("engine", J::s("comp")).with("scenario", J::s("c12-stress")).with("seed", J::Int(seed as i128)).with("index", J::Int(index as i128)).with("round", J::Int(round as i128)).with("status", J::s(status_name(&status)));
+        for handle in handles {
+            if let Ok((ready, problems, polls, waits)) = handle.join() {
+                shard.counts.add("stress_polls", polls);
+                shard.counts.add("wake_obligations_checked", waits);
+                let lost = problems.iter().any(|p| p == "last-pending-poller-never-woken");
+                for p in problems { fail(shard, &["C12"], format!("C12/{}", p), format!("free-running poller vs done({})", status_name(&status)), witness.clone()); }
+                if pollers == 1 && !lost {
+                    match ready { Some(s) if s == status => {}, other => fail(shard, &["C12"], "C12/final-poll-not-ready-with-the-real-status".into(), format!("poller ended with {:?}, done() was given {}", other, status_name(&status)), witness.clone()) }
+                }
+            }
+        }
+        shard.case(fnv_step(fnv_step(0xC125, index), round), true);
+    }
+    sched().quiet();
+}
+
+// ------------------------------------------------------------------------------------------------ dispatch
+
+pub fn run(args: &Args) -> Shard {
+    let focus = crate::props::static_focus(&args.str("focus", "C14"));
+    let scenario = args.str("scenario", "c14");
+    let seed = args.u64("seed", 1);
+    let from = args.u64("from", 0);
+    let stride = args.u64("stride", 1);
+    let count = args.u64("count", 10);
+    let budget = Duration::from_secs(args.u64("budget-s", 3600));
+    let mut shard = Shard::new(&format!("comp-{}", scenario), focus);
+    let _ = recorder();
+    let _ = sched();
+    match scenario.as_str() {
+        "c14" => run_c14(args, &mut shard),
+        "c06" => {
+            let mut index = from;
+            let mut done = 0;
+            while done < count && shard.started.elapsed() < budget { c06_case(&mut shard, seed, index); index += stride; done += 1; }
+        }
+        "c12-directed" => { if from == 0 { c12_directed(&mut shard); } }
+        "c12-stress" => c12_stress(&mut shard, seed, from, count),
+        other => { eprintln!("unknown scenario {}", other); std::process::exit(2); }
+    }
+    let mut visits = J::obj();
+    for (site, n) in sched().visit_counts() { if n > 0 { visits.set(format!("{:?}", site), J::Int(n as i128)); } }
+    shard.extra = J::obj().with("site_visits", visits).with("gate_holds", J::Int(sched().gate_holds.load(Ordering::SeqCst) as i128)).with("gate_timeouts", J::Int(sched().gate_timeouts.load(Ordering::SeqCst) as i128));
+    shard
+}
+
+#[allow(dead_code)]
+fn unused() { let _ = Counts::default(); }
